@@ -389,7 +389,10 @@ def work(chunk):
     if PROP in ('C01', 'C02'):
         for it, out in zip(chunk, outs):
             if it['idx'] % 40 == 0:
-                a, b = twins(it, out)
+                try:
+                    a, b = twins(it, out)
+                except Exception:
+                    a, b = 0, 0
                 tw[0] += a
                 tw[1] += b
     if chunk and chunk[0]['idx'] % 7 == 0:
